@@ -76,6 +76,7 @@ func selectCaseAppends(p *an.Prog, fn *ssa.Function) (send, recv []ssa.Instructi
 func notifierRules(c *Ctx) {
 	P := c.P
 	reflectKinds(c, "notifier.go")
+	typeNilableRule(c) // an untyped nil is offered exactly to element types that have a nil
 	// valueOfNotifierTarget returns only for a channel that can be sent to (the premise of every later reflect use of a
 	// subscriber's target; reflect.Select panics on a send case with a receive-only channel)
 	if q := c.F("valueOfNotifierTarget"); q.ok() {
